@@ -365,6 +365,26 @@ def _snr(spec, ctx, R):
     lo = float(chi2.ppf(0.5e-9 / K, N)) / N
     ctx.check("snr_target", bool(lo <= min(powers) / target and max(powers) / target <= hi), site="per_draw_power",
               detail={"min_ratio": min(powers) / target, "max_ratio": max(powers) / target, "quantiles": [lo, hi], "N": N, "draws": K})
+    # EXACT form of "hits the requested SNR in expectation": the noise of one draw is sigma * z with z the standard-normal stream of the
+    # generator that was passed (recovered by projecting the returned noise onto that stream; if the routine draws differently the fit is
+    # poor and nothing is judged); then E||noise||^2 = N sigma^2 must equal ||signal||^2 / 10^(snr/10) to rounding, for every snr incl.
+    # negative and fractional ones -- a Monte-Carlo estimate cannot see a miscalibration below 1e-3
+    for snr_x in (snr_db, -5.0, 3.7, 40.0, 60.0):
+        g1 = np.random.default_rng([spec["seed"], spec["idx"], 777])
+        g2 = np.random.default_rng([spec["seed"], spec["idx"], 777])
+        noisy = Q.add_awgn_snr(img.copy(), snr_x, rng=g1)
+        zs = g2.standard_normal(img.shape)
+        nz = noisy - img
+        sig_hat = float(np.sum(nz * zs) / np.sum(zs * zs))
+        fit = float(np.linalg.norm(nz - sig_hat * zs) / max(np.linalg.norm(nz), 1e-300))
+        recov = 64 * refq.EPS * float(np.abs(img).max()) / max(abs(sig_hat), 1e-300)          # rounding of (img + noise) - img relative to the noise
+        if fit <= 1e-9 + recov:
+            tgt = float(np.sum(img ** 2)) / 10 ** (snr_x / 10.0)
+            ctx.hit("snr:exact_sigma_recovered")
+            ctx.check("snr_target", abs(N * sig_hat * sig_hat - tgt) / tgt, 1e-10 + 4 * recov, site="expected_noise_power_exact",
+                      detail={"snr_db": snr_x, "sigma_recovered": sig_hat, "target_power": tgt, "fit_residual": fit})
+        else:
+            ctx.hit("snr:stream_not_recovered")
     # default generator path and the zero-signal path
     out = Q.add_awgn_snr(img.copy(), snr_db)
     ctx.check("snr_target", out.shape == img.shape and float(chi2.ppf(1e-10, N)) / N <= float(np.sum((out - img) ** 2)) / target <= float(chi2.isf(1e-10, N)) / N,
